@@ -418,6 +418,340 @@ def chord_corpus_check():
     return bad, n
 
 
+# ------------------------------------------------------------------ look-alike export histories
+# Mechanism class covered: cross-INSTANCE state keyed by something coarser than a shape's full definition (a module
+# level / class level cache or memo of drawn rings, WKT, GeoJSON, shapely geometry, area ... whose key leaves out holes,
+# or collides for different field values).  A run builds several look-alike shapes one after the other - same kind,
+# centre, size, dt and k, differing only in their holes (none / A / B / a smaller A / A+B / B+A / an elliptic hole), or
+# differing in a field for which the library's hashes collide (hash(-1.0) == hash(-2.0): rotation, angle_min, centre
+# longitude / latitude) - and exports each through randomly chosen entry points in random order.  Every export is judged
+# on its own, against the definition only: ring count = 1 (+1 inner circle of a full ring) + number of holes of THIS
+# shape, the shell on THIS shape's curve (oracle_boundary), every interior ring on the curve of one of THIS shape's
+# holes, and the even-odd reading of the exported rings equal to the analytic definition with holes removed at query
+# coordinates placed by the independent direct solution in the body, outside, and inside / around every hole of the
+# whole pool (a hole the shape does not have must not appear), away from every chord-error zone.
+EXPORTS_K = ['linear_rings', 'to_wkt', 'to_geojson', 'to_geo_interface', 'edges', 'to_polygon']
+EXPORTS_NOK = ['__geo_interface__', 'to_shapely', 'area', 'to_pyshp']
+LOOK_DT = None
+
+
+def _look_dt():
+    global LOOK_DT
+    if LOOK_DT is None:
+        from datetime import datetime, timezone
+        LOOK_DT = datetime(2021, 3, 4, 5, 6, 7, tzinfo=timezone.utc)
+    return LOOK_DT
+
+
+def build2(sh, holes, with_dt):
+    shape = build(sh, holes)
+    if with_dt:
+        dt = _look_dt()
+        hs = [build(h) for h in holes] or None
+        c = C(sh['c'])
+        if sh['t'] == 'circle':
+            shape = GeoCircle(c, sh['r'], holes=hs, dt=dt)
+        elif sh['t'] == 'ellipse':
+            shape = GeoEllipse(c, sh['a'], sh['b'], sh['rot'], holes=hs, dt=dt)
+        else:
+            shape = GeoRing(c, sh['rin'], sh['rout'], sh['amin'], sh['amax'], holes=hs, dt=dt)
+    return shape
+
+
+class _CapWriter:
+    """stands in for a shapefile.Writer: to_pyshp hands it the rings"""
+    def poly(self, rings):
+        return rings
+    polyz = polym = poly
+
+
+def read_export(shape, name, kreq):
+    """the rings [[(lon, lat), ...], ...] carried by one export entry point (or the area value)"""
+    kw = {'k': kreq} if kreq else {}
+    fl = lambda ring: [tuple(c.to_float()[:2]) for c in ring]      # noqa: E731
+    if name == 'linear_rings':
+        return [fl(r) for r in shape.linear_rings(**kw)]
+    if name == 'to_wkt':
+        return [[tuple(float(v) for v in c.split()[:2]) for c in ring.split(',')]
+                for ring in re.findall(r'\(([^()]+)\)', shape.to_wkt(**kw))]
+    if name == 'to_geojson':
+        return [[tuple(c[:2]) for c in ring] for ring in shape.to_geojson(**kw)['geometry']['coordinates']]
+    if name == 'to_geo_interface':
+        return [[tuple(c[:2]) for c in ring] for ring in shape.to_geo_interface(**kw)['coordinates']]
+    if name == '__geo_interface__':
+        return [[tuple(c[:2]) for c in ring] for ring in shape.__geo_interface__['coordinates']]
+    if name == 'edges':
+        return [fl([e[0] for e in ring] + [ring[-1][1]]) for ring in shape.edges(**kw)]
+    if name == 'to_polygon':
+        poly = shape.to_polygon(**kw)
+        return [fl(poly.outline)] + [fl(h.bounding_coords()) for h in poly.holes]
+    if name == 'to_shapely':
+        g = shape.to_shapely()
+        return [[tuple(c[:2]) for c in g.exterior.coords]] + [[tuple(c[:2]) for c in i.coords] for i in g.interiors]
+    if name == 'to_pyshp':
+        return [[tuple(c[:2]) for c in ring[::-1]] for ring in shape.to_pyshp(_CapWriter())]      # ESRI order, turned back
+    if name == 'area':
+        return float(shape.area)
+    raise KeyError(name)
+
+
+def chord_rho(sh, k, beta):
+    """distance from the centre, at bearing beta, of the chord polygon through the k scheduled boundary points (outer
+    arc for ring kinds); a lower estimate is enough"""
+    if sh['t'] == 'circle':
+        return sh['r'] * math.cos(math.pi / k)
+    if sh['t'] == 'ellipse':
+        step = 360.0 / k
+        if step >= 180:
+            return 0.0
+        th = (beta - sh['rot']) % 360.0
+        t1 = math.floor(th / step) * step
+        r1, r2 = radius_at(sh['a'], sh['b'], t1), radius_at(sh['a'], sh['b'], t1 + step)
+        den = r1 * math.sin(math.radians(th - t1)) + r2 * math.sin(math.radians(t1 + step - th))
+        return r1 * r2 * math.sin(math.radians(step)) / den
+    step = (sh['amax'] - sh['amin']) / k
+    return sh['rout'] * math.cos(math.radians(step / 2)) if step < 180 else 0.0
+
+
+def clear_of_chords(sh, k, q, margin=0.08):
+    """q is not between the curve of sh and its k-point chord polygon (with a relative margin), nor near a wedge edge"""
+    d, beta = inv(sh['c'], q)
+    lo, hi = boundary_rho(sh, beta)
+    if (1 - margin) * chord_rho(sh, k, beta) < d < (1 + margin) * hi:
+        return False
+    if sh['t'] == 'ring':
+        step = (sh['amax'] - sh['amin']) / k
+        if step >= 180 or (1 - margin) * lo * math.cos(math.radians(step / 2)) < d < (1 + margin) * lo:
+            return False
+        width = sh['amax'] - sh['amin']
+        if width < 360:
+            off = (beta - sh['amin']) % 360.0
+            if min(off, abs(off - width), 360.0 - off) < 3.0 or d < 1.0:
+                return False
+    return True
+
+
+def even_odd(pt, ring, ref):
+    unwrap = lambda x: (x - ref + 180.0) % 360.0 - 180.0       # noqa: E731
+    x, y = unwrap(pt[0]), pt[1]
+    pts = [(unwrap(a), b) for a, b in ring]
+    inside = False
+    for (x1, y1), (x2, y2) in zip(pts, pts[1:] + pts[:1]):
+        if (y1 > y) != (y2 > y) and x < x1 + (y - y1) * (x2 - x1) / (y2 - y1):
+            inside = not inside
+    return inside
+
+
+def on_curve(h, pt):
+    """pt within 2 cm of the boundary curve of the hole h (circle / ellipse)"""
+    d, beta = inv(h['c'], pt)
+    _, rho = boundary_rho(h, beta)
+    tol = 0.02
+    if h['t'] == 'ellipse':
+        tol += abs(radius_at(h['a'], h['b'], beta - h['rot'] + math.degrees(0.02 / max(d, 1e-3))) - rho)
+    return abs(d - rho) <= tol
+
+
+def hole_pool(sh, rng):
+    """A, B disjoint and inside the body; A2 = A shrunk; E = an elliptic hole where B is"""
+    if sh['t'] == 'circle' or sh['t'] == 'ellipse':
+        b1 = sh.get('rot', rng.uniform(0, 360))
+        small = sh['r'] if sh['t'] == 'circle' else sh['b']
+        big = sh['r'] if sh['t'] == 'circle' else sh['a']
+        pa, pb, rad = direct(sh['c'], b1, 0.5 * big), direct(sh['c'], b1 + 180.0, 0.5 * big), 0.3 * small
+    else:
+        mid, w, span = (sh['rin'] + sh['rout']) / 2, sh['rout'] - sh['rin'], sh['amax'] - sh['amin']
+        if is_full(sh) or span >= 360:
+            b1 = rng.uniform(0, 360)
+            pa, pb, rad = direct(sh['c'], b1, mid), direct(sh['c'], b1 + 180.0, mid), 0.3 * w
+        else:
+            pa, pb = direct(sh['c'], sh['amin'] + span / 4, mid), direct(sh['c'], sh['amin'] + 3 * span / 4, mid)
+            rad = min(0.3 * w, 0.4 * mid * math.sin(math.radians(min(span / 4, 90.0))))
+    rad = max(rad, 0.5)
+    return {'A': {'t': 'circle', 'c': pa, 'r': rad}, 'B': {'t': 'circle', 'c': pb, 'r': 0.9 * rad},
+            'A2': {'t': 'circle', 'c': pa, 'r': 0.6 * rad},
+            'E': {'t': 'ellipse', 'c': pb, 'a': rad, 'b': 0.6 * rad, 'rot': float(rng.randrange(0, 360, 15))}}
+
+
+HOLE_VARIANTS = [[], ['A'], ['B'], ['A2'], ['A', 'B'], ['B', 'A'], ['E'], ['A', 'E'], ['A2', 'B']]
+
+
+def gen_history(rng, sh0):
+    """pure data: {'variants': [shape...], 'pools': [...], 'kreq', 'dt', 'steps': [(variant index, hole names, exports)]}"""
+    variants = [sh0]
+    if rng.random() < 0.35:
+        # fields whose hashes collide although the values differ: hash(-1.0) == hash(-2.0)
+        opts = ['lon', 'lat']
+        if sh0['t'] == 'ellipse':
+            opts += ['rot', 'rot']
+        if sh0['t'] == 'ring' and not is_full(sh0):
+            opts += ['amin', 'amin']
+        f = rng.choice(opts)
+        variants = []
+        for v in (-1.0, -2.0):
+            s = dict(sh0)
+            if f == 'lon':
+                s['c'] = (v, sh0['c'][1])
+            elif f == 'lat':
+                s['c'] = (sh0['c'][0], v)
+            elif f == 'rot':
+                s['rot'] = v
+            else:
+                s['amin'], s['amax'] = v, v + min(sh0['amax'] - sh0['amin'], 300.0)
+            variants.append(s)
+    pools = [hole_pool(s, rng) for s in variants]
+    kreq = rng.choice(KS + [5, 12, 24])
+    steps = []
+    hv = rng.sample(HOLE_VARIANTS, 5)
+    if [] not in hv and rng.random() < 0.7:
+        hv[rng.randrange(len(hv))] = []
+    for names in hv:
+        for vi in (rng.sample(range(len(variants)), len(variants)) if len(variants) > 1 else [0]):
+            ex = rng.sample(EXPORTS_K + EXPORTS_NOK, rng.choice([2, 3, 4]))
+            steps.append((vi, names, ex))
+    return {'variants': variants, 'pools': pools, 'kreq': kreq, 'dt': rng.random() < 0.3, 'steps': steps}
+
+
+def history_queries(sh, pools):
+    qs = []
+    wedge = sh['t'] == 'ring' and sh['amax'] - sh['amin'] < 360
+    for j in range(8):
+        beta = 360.0 * j / 8 + 11.0 if not wedge else sh['amin'] + (sh['amax'] - sh['amin']) * (j + 0.5) / 8
+        lo, hi = boundary_rho(sh, beta)
+        if lo > 0:
+            qs += [direct(sh['c'], beta, (lo + hi) / 2), direct(sh['c'], beta, 0.5 * lo), direct(sh['c'], beta, 0.55 * lo + 0.45 * hi)]
+        else:
+            qs += [direct(sh['c'], beta, 0.4 * hi), direct(sh['c'], beta, 0.2 * hi)]
+        qs.append(direct(sh['c'], beta, 1.3 * hi))
+    for pool in pools:
+        for h in pool.values():
+            qs.append(h['c'])
+            for b in (20.0, 110.0, 200.0, 290.0):
+                rho = boundary_rho(h, b)[1]
+                qs += [direct(h['c'], b, 0.3 * rho), direct(h['c'], b, 1.4 * rho)]
+    return qs
+
+
+def geod_area(rings):
+    """|area| of each ring on WGS84 by pyproj (the same third-party routine the library uses, on rings of our own)"""
+    from pyproj import Geod
+    g = Geod(ellps='WGS84')
+    return [abs(g.polygon_area_perimeter([p[0] for p in r], [p[1] for p in r])[0]) for r in rings]
+
+
+def judge_export(sh, holes, kreq, name, got):
+    """[(clause, detail)] for one export of the shape sh with the holes `holes` (descriptions)"""
+    k = (kreq if name in EXPORTS_K else None) or default_k(sh)
+    full = sh['t'] == 'ring' and is_full(sh)
+    if name == 'area':
+        sched = lambda s, kk, rad=None: [direct(s['c'], schedule(s, kk, i)[0], rad if rad is not None else schedule(s, kk, i)[1])     # noqa: E731
+                                         for i in range(kk, -1, -1)]
+        if sh['t'] != 'ring':
+            parts = [sched(sh, k)]
+        elif full:
+            parts = [sched(sh, k, sh['rout']), sched(sh, k, sh['rin'])]
+        else:
+            parts = [sched(sh, k, sh['rout']) + sched(sh, k, sh['rin'])[::-1]]
+        parts += [sched(h, default_k(h)) for h in holes]
+        ar = geod_area(parts)
+        want = ar[0] - sum(ar[1:])
+        size = lambda s: s.get('r') or s.get('a') or s['rout']       # noqa: E731
+        perim = sum(2 * math.pi * size(s) for s in [sh] + list(holes)) + (2 * math.pi * sh['rin'] if sh['t'] == 'ring' else 0)
+        tol = 0.03 * perim + 1e-6 * ar[0]
+        if abs(got - want) > tol:
+            return [('holes_removed', f'area={got!r}; the rings of the definition (shell minus {len(holes)} hole(s)) have area {want!r} (tolerance {tol:.3g})')]
+        return []
+    bad = []
+    n_want = 1 + (1 if full else 0) + len(holes)
+    if len(got) != n_want:
+        bad.append(('holes_removed', f'{name}(k={kreq if name in EXPORTS_K else None}) carries {len(got)} ring(s); the shape has {len(holes)} hole(s)'
+                                     f'{" and an inner circle" if full else ""}: expected {n_want}'))
+    shell = list(got[0])
+    if sh['t'] == 'ring' and is_full(sh) and len(shell) == k + 2 and shell[-1] == shell[0]:
+        shell = shell[:-1]
+    for clause, detail in oracle_boundary(sh, k, shell, {})[:2]:
+        bad.append(('polygon_form_carries_ring', f'{name}: shell ring: {detail}'))
+    interior = list(got[1:])
+    if full and interior:
+        inner = [r for r in interior if all(abs(inv(sh['c'], p)[0] - sh['rin']) <= 0.02 for p in r)]
+        if not inner:
+            bad.append(('polygon_form_carries_ring', f'{name}: no interior ring lies on the inner circle'))
+        else:
+            interior.remove(inner[0])
+    for h in holes:
+        m = [r for r in interior if len(r) >= 4 and all(on_curve(h, p) for p in r)]
+        if not m:
+            bad.append(('holes_removed', f'{name}: no interior ring lies on the curve of the hole {h!r}'))
+        else:
+            interior.remove(m[0])
+    if interior and len(got) == n_want:
+        bad.append(('holes_removed', f'{name}: {len(interior)} interior ring(s) on no hole of the shape, first vertex {interior[0][0]!r}'))
+    return bad
+
+
+def judge_enclosure(sh, holes, kreq, name, got, queries, stats):
+    k = (kreq if name in EXPORTS_K else None) or default_k(sh)
+    bad = []
+    for q in queries:
+        want, ok = expected_contains(sh, q, holes)
+        if not ok or not clear_of_chords(sh, k, q) or \
+                not all(clear_of_chords(h, min(k, default_k(h)), q) and clear_of_chords(h, default_k(h), q) for h in holes):
+            stats['skipped'] += 1
+            continue
+        obs = even_odd(q, got[0], sh['c'][0]) and not any(even_odd(q, r, sh['c'][0]) for r in got[1:])
+        stats['judged'] += 1
+        if any(expected_contains(h, q)[0] for h in holes):
+            stats['in_a_hole'] += 1
+        if obs != want:
+            bad.append(('holes_removed', f'{name}(k={kreq if name in EXPORTS_K else None}): the exported rings '
+                                         f'{"enclose" if obs else "do not enclose"} {q!r}; the definition with holes removed gives {want}'))
+            break
+    return bad
+
+
+def run_history(hist, stats=None, count=None):
+    """executes a history; returns the violations (dicts) in the order met"""
+    stats = stats if stats is not None else {'skipped': 0, 'judged': 0, 'in_a_hole': 0, 'exports': 0}
+    out, done = [], []
+    queries = [history_queries(s, hist['pools']) for s in hist['variants']]
+    for vi, names, exports in hist['steps']:
+        sh = hist['variants'][vi]
+        holes = [hist['pools'][vi][n] for n in names]
+        built = guarded(lambda: build2(sh, holes, hist['dt']))
+        m = {'k': 'lookalike', 'shape': sh, 'holes': holes, 'hole_names': names, 'kreq': hist['kreq'], 'dt': hist['dt'],
+             'exports_before_in_this_process': list(done), 'history': hist}
+        if built[0] != 'Ok':
+            out.append(dict(m, clause='no_exception', detail=f'constructor raised {built[1]}'))
+            continue
+        for name in exports:
+            got = guarded(lambda: read_export(built[1], name, hist['kreq']))
+            stats['exports'] += 1
+            if count:
+                count('lookalike export:' + name)
+            mm = dict(m, export=name)
+            if got[0] != 'Ok':
+                out.append(dict(mm, clause='no_exception', detail=f'{name} raised {got[1]}'))
+            else:
+                bad = judge_export(sh, holes, hist['kreq'], name, got[1])
+                if name != 'area' and got[1]:
+                    bad += judge_enclosure(sh, holes, hist['kreq'], name, got[1], queries[vi], stats)
+                for clause, detail in bad:
+                    out.append(dict(mm, clause=clause, detail=detail))
+            done.append({'variant': vi, 'holes': names, 'export': name})
+    return out
+
+
+def lookalike_family(rng, n, count):
+    base = gen_shapes(rng, 19 + n)[19:]
+    stats = {'skipped': 0, 'judged': 0, 'in_a_hole': 0, 'exports': 0}
+    out = []
+    for sh0 in base:
+        hist = gen_history(rng, sh0)
+        count('lookalike history:' + ('hash-colliding fields' if len(hist['variants']) > 1 else 'holes only'))
+        out += run_history(hist, stats, count)
+    return out, stats
+
+
 # ------------------------------------------------------------------ main
 def main():
     ck = Check('C03')
@@ -552,6 +886,11 @@ def main():
     ck.cov['chord_corpus'] = {'queries': cn, 'disagreements': len(cbad)}
     for b in cbad[:2]:
         violations.append({'k': 'chord', 'clause': 'polygon_vs_analytic_fixed_corpus', 'detail': json.dumps(b), **b})
+    # look-alike export histories (cross-instance state keyed coarser than the definition)
+    lbad, lstats = lookalike_family(rng, 70 if quick else 700, ck.count)
+    ck.cov['lookalike_histories'] = lstats
+    evals += lstats['exports'] + lstats['judged']
+    violations.extend(lbad)
 
     per_file = max(6, -(-len(lemmas) // 14))
     badk, broken = c07.run_lemmas(ck, 'curve', lemmas, per_file, header=K_HEADER)
@@ -596,7 +935,11 @@ def main():
              'Per shape: every boundary coordinate through the oracle (on curve within 2 cm, scheduled bearing, angular order, first=last, '
              'count, polygon form identical), 6-16 bearings x 6-9 radial factors of membership queries placed by an independent direct '
              'solution, every third shape with a hole; the first n shapes also through the interval tie (4 boundary indices, ~1/7 of the '
-             'decisions). non-trivial = distinct (shape, k)',
+             'decisions). Look-alike export histories (70 quick / 700 thorough): within one process, shapes of one kind, centre, size, '
+             'dt and k differing only in their holes (none/A/B/smaller A/A+B/B+A/elliptic) or in a field whose hashes collide '
+             '(-1.0 / -2.0 as rotation, angle_min, centre longitude or latitude), each exported through 2-4 of the 10 export entry '
+             'points in random order; every export judged against the definition alone (ring count, shell and hole rings on their '
+             'curves, even-odd enclosure of ~90 placed coordinates incl. every hole of the pool, area). non-trivial = distinct (shape, k)',
         assumptions=['float -> real abstraction (IEEE rounding, libm not modelled); tolerances: 5.1e-8 deg on boundary coordinates, '
                      'decisions within 2 cm of a boundary (or the equivalent angle for wedge edges) skipped',
                      'a hole is abstracted to its membership predicate; the interval tie uses shapes without holes, holes are covered by '
@@ -608,7 +951,7 @@ def main():
 def replay(path):
     r = json.load(open(path))
     m = r.get('case') or {}
-    print(json.dumps({k: v for k, v in m.items() if k != 'lemma'}, indent=1, default=str))
+    print(json.dumps({k: v for k, v in m.items() if k not in ('lemma', 'history')}, indent=1, default=str))
     sh = m.get('shape')
     if sh:
         sh['c'] = tuple(sh['c'])
@@ -616,6 +959,13 @@ def replay(path):
         if m.get('k') == 'contains':
             q = tuple(m['q'])
             print('implementation now:', shape.contains_coordinate(C(q)), ' definition (independent geodesy):', expected_contains(sh, q))
+        elif m.get('k') == 'lookalike':
+            alone = build2(sh, m['holes'], m.get('dt'))
+            print('the same export made FIRST in this fresh process, on a new instance of the shape alone:',
+                  [c for c, _ in judge_export(sh, m['holes'], m.get('kreq'), m['export'], read_export(alone, m['export'], m.get('kreq')))] or 'agrees with the definition')
+            print('then re-running the recorded history; violations met, in order:')
+            for v in run_history(m['history']):
+                print('*', v['clause'], '| after', len(v['exports_before_in_this_process']), 'exports | holes', v['hole_names'], '|', v['detail'][:240])
         elif m.get('k') == 'boundary':
             kw = {'k': m['kreq']} if m.get('kreq') else {}
             pts = [(c.longitude, c.latitude) for c in shape.bounding_coords(**kw)]
